@@ -51,6 +51,11 @@ def run(run):
         _r6_join(run, st)
         _r2_r3_producer(run, st, work_queues)
         _worker_rules(run, st, work_queues)
+    # the dispatch loops run inside the package's generator context managers (progress bars): one that catches an exception of the
+    # with-body abandons the loop at that item and lets the stage shut down normally - the remaining items are never handed out
+    from . import C19 as c19
+    common.delegate(run, "C03.R2", "C19", lambda sub: c19._r4_context_managers(sub, stages), only_rules={"C19.R4"},
+                    note="premise: the dispatch loop is not abandoned silently by the context manager around it")
 
 
 def _work_queues(st, project=None):
